@@ -8,6 +8,7 @@ from AIDojoCoordinator.game_components import Action, Observation, ActionType, G
 from AIDojoCoordinator.global_defender import GlobalDefender
 from AIDojoCoordinator.utils.utils import observation_as_dict, get_str_hash, ConfigParser
 import os
+import re
 from aiohttp import ClientSession
 from cyst.api.environment.environment import Environment
 
@@ -240,7 +241,9 @@ class GameCoordinator:
         """
         self.task_config = ConfigParser(self._task_config_file)
         self._cyst_objects = self.task_config.get_scenario()
-        self._CONFIG_FILE_HASH = get_str_hash(str(self._cyst_objects))
+        # ids of configuration items are random (uuid4) unless specified - exclude them so the hash is stable across runs
+        uuid_regex = r"[0-9a-f]{8}-[0-9a-f]{4}-[0-9a-f]{4}-[0-9a-f]{4}-[0-9a-f]{12}"
+        self._CONFIG_FILE_HASH = get_str_hash(re.sub(uuid_regex, "", str(self._cyst_objects)))
 
     def _get_starting_position_per_role(self)->dict:
         """
